@@ -127,13 +127,23 @@ func DiffBattery(a, b map[string]string) string {
 	for _, k := range ks {
 		if a[k] != b[k] {
 			x, y := a[k], b[k]
-			if len(x) > 300 {
-				x = x[:300] + "…"
+			// show the window around the first difference
+			i := 0
+			for i < len(x) && i < len(y) && x[i] == y[i] {
+				i++
 			}
-			if len(y) > 300 {
-				y = y[:300] + "…"
+			from := i - 200
+			if from < 0 {
+				from = 0
 			}
-			return fmt.Sprintf("query %s: %s  VS  %s", k, x, y)
+			cut := func(s string) string {
+				s = s[from:]
+				if len(s) > 400 {
+					s = s[:400] + "…"
+				}
+				return s
+			}
+			return fmt.Sprintf("query %s (answers part at byte %d): …%s  VS  …%s", k, i, cut(x), cut(y))
 		}
 	}
 	return ""
